@@ -142,7 +142,8 @@ pub fn c16(a: &Args) -> i32 {
         let router = Router::new()
             .with_middleware(|req: &Message, next: repe::server::Next<'_>| next.run(req))
             .with_json_blocking("/work", work)
-            .with_json("/inline", |v| Ok(json!({"inline": v})));
+            .with_json("/inline", |v| Ok(json!({"inline": v})))
+            .with_json("/inlinebig", |_v| Ok(json!({"pad": "z".repeat(6 << 20)})));
         let listener = rt.block_on(WebSocketServer::listen("127.0.0.1:0")).unwrap();
         let addr = listener.local_addr().unwrap();
         // the per-connection outbound queue is also varied: parked handlers must not pin its capacity
@@ -180,9 +181,24 @@ pub fn c16(a: &Args) -> i32 {
         }
         if cap > 0 {
             // 2. saturation: an immediate ResourceExhausted while the others are still parked; a notify is dropped
-            next_n += 1;
-            send_work(&mut ws, next_n, "ret", false, &log);
-            expect_resp(&mut ws, &log, Duration::from_secs(5));
+            if outcap <= 2 {
+                // with a small outbound queue: back the writer up first (two large inline responses nobody reads yet), so
+                // that the rejection below finds the queue full; it must still be delivered once the peer reads
+                for _ in 0..2 {
+                    next_id.set(next_id.get() + 1);
+                    log.push(json!({"ev": "arrive", "n": 0, "id": next_id.get(), "kind": "inline", "notify": false, "exit": "ret"}));
+                    ws_send(&mut ws, &Message::builder().id(next_id.get()).query_str("/inlinebig").body_json(&json!({})).unwrap().build());
+                }
+                std::thread::sleep(Duration::from_millis(200));
+                next_n += 1;
+                send_work(&mut ws, next_n, "ret", false, &log);
+                std::thread::sleep(Duration::from_millis(100));
+                for _ in 0..3 { expect_resp(&mut ws, &log, Duration::from_secs(8)); }
+            } else {
+                next_n += 1;
+                send_work(&mut ws, next_n, "ret", false, &log);
+                expect_resp(&mut ws, &log, Duration::from_secs(5));
+            }
             next_n += 1;
             gates.release(next_n); // should it (wrongly) run, do not leave it parked
             send_work(&mut ws, next_n, "ret", true, &log);
